@@ -107,6 +107,11 @@ func (c *Ctx) storeTarget(addr ssa.Value, m *ModSet) {
 		}
 		if s, ok := st.Underlying().(*types.Struct); ok {
 			m.add(c.fieldHeapName(st, s.Field(a.Field).Name()))
+			// the struct may live inside a slice element, an array or another
+			// struct (interior pointer of unknown origin)
+			if _, isAlloc := a.X.(*ssa.Alloc); !isAlloc {
+				c.interiorHeaps(st, m)
+			}
 		}
 	case *ssa.IndexAddr:
 		switch bt := a.X.Type().Underlying().(type) {
@@ -131,6 +136,7 @@ func (c *Ctx) storeTarget(addr ssa.Value, m *ModSet) {
 
 // derefMods: a store through a *T pointer of unknown origin.
 func (c *Ctx) derefMods(elem types.Type, m *ModSet) {
+	c.interiorHeaps(elem, m)
 	if s, ok := elem.Underlying().(*types.Struct); ok {
 		for i := 0; i < s.NumFields(); i++ {
 			m.add(c.fieldHeapName(elem, s.Field(i).Name()))
@@ -138,6 +144,54 @@ func (c *Ctx) derefMods(elem types.Type, m *ModSet) {
 		return
 	}
 	m.add("P$" + typeName(elem))
+}
+
+var interiorCache = map[string][]string{}
+
+// interiorHeaps: heaps in which a value of type t can live by value (slice
+// elements, struct-typed or array-typed fields of structs of the root packages).
+func (c *Ctx) interiorHeaps(t types.Type, m *ModSet) {
+	key := types.TypeString(t, nil)
+	if hs, ok := interiorCache[key]; ok {
+		for _, h := range hs {
+			m.add(h)
+		}
+		return
+	}
+	hs := []string{"E$" + typeName(t)}
+	_, isStruct := t.Underlying().(*types.Struct)
+	if !isStruct {
+		c.note("stores through *scalar pointers of unknown origin are assumed not to alias struct fields (only slice elements and cells)")
+	}
+	for _, p := range c.prog.Pkgs {
+		if p.Types == nil || !isStruct {
+			continue
+		}
+		sc := p.Types.Scope()
+		for _, n := range sc.Names() {
+			tn, ok := sc.Lookup(n).(*types.TypeName)
+			if !ok {
+				continue
+			}
+			st, ok := tn.Type().Underlying().(*types.Struct)
+			if !ok {
+				continue
+			}
+			for i := 0; i < st.NumFields(); i++ {
+				ft := st.Field(i).Type()
+				if arr, ok := ft.Underlying().(*types.Array); ok {
+					ft = arr.Elem()
+				}
+				if types.Identical(ft, t) {
+					hs = append(hs, c.fieldHeapName(tn.Type(), st.Field(i).Name()))
+				}
+			}
+		}
+	}
+	interiorCache[key] = hs
+	for _, h := range hs {
+		m.add(h)
+	}
 }
 
 func mapHeapNames(mt *types.Map) []string {
